@@ -191,7 +191,8 @@ def handleValidate : Handler := fun op =>
     return outOutcome outPy (validateFloatOrInt (← pPy) o)
   | "vpf" => some do
     let o ← pBool
-    return outOutcome outPy (validatePositiveFloat (← pPy) o)
+    let ai ← pBool
+    return outOutcome outPy (validatePositiveFloat (← pPy) o ai)
   | "vfl" => some do
     let o ← pBool
     return outOutcome outPy (validateFloat (← pPy) o)
